@@ -255,7 +255,7 @@ def main(prop: str, tier: str) -> int:
             nb += len(behs)
             if behs:
                 samples.append(json.loads(behs[len(behs) // 2]))
-            for d, out in pool.imap_unordered(_chunk, list(common.chunked(list(enumerate(behs)), 300))):
+            for d, out in common.gmap(pool, rep, _chunk, list(common.chunked(list(enumerate(behs)), 300))):
                 drift += d
                 for fp, msg, b in out:
                     rep.violation(fp, {'what': msg, 'behaviour': b})
